@@ -381,12 +381,13 @@ udp_remove_pipe(udp_pipe *p)
 		return;
 	}
 	p->id = 0;
-	NNI_ASSERT(ep->peer_count != 0);
-	ep->peer_count--;
 	// The pipe is removed under the key it was stored with: searching
 	// for it from its hash would miss it once an earlier pipe of the
-	// run is gone, leaving a dangling pointer in the map.
+	// run is gone, leaving a dangling pointer in the map.  (A pipe that
+	// udp_add_pipe could not store has no key and was never counted.)
 	if (nni_id_get(&ep->pipes, key) == p) {
+		NNI_ASSERT(ep->peer_count != 0);
+		ep->peer_count--;
 		nni_id_remove(&ep->pipes, key);
 		udp_close_gap(ep, key);
 	}
